@@ -82,7 +82,7 @@ def parse_sig(sig):
 
 
 def sid(d):
-    keys = ("sig", "way", "rule", "fillmode", "pad_before", "extra", "canary")
+    keys = ("sig", "way", "rule", "fillmode", "pad_before", "extra", "canary", "mispos", "lazy", "dask_def", "dask_call")
     return ";".join(f"{k}={json.dumps(d[k])}" for k in keys if d.get(k) is not None).replace('"', "")
 
 
@@ -108,6 +108,17 @@ def structures(tier, seed):
     add(sig="1in1out-lat", way="apply", rule="fill", pad_before=False)
     add(sig="1in1out-lat", way="decorator-def", rule="extend", pad_before=False)
     add(sig="1in1out-lat", way="decorator-call", rule="fill", pad_before=False)
+    # inputs not located on the positions the signature names are rejected: every input x every signature axis of it moved elsewhere
+    for name in SIGS:
+        ins_, _ = parse_sig(SIGS[name]["sig"])
+        for i, (names_, _) in enumerate(ins_):
+            for j in range(len(names_)):
+                for alt in (0, 1):
+                    add(sig=name, way=("apply", "decorator-call", "grid-method")[(i + j + alt) % 3], rule="fill", mispos=[i, j, alt])
+    # lazy inputs and the `dask` option, bound at definition and / or given at call time (effective value: call, else definition, else 'forbidden')
+    for name in ("1in1out", "2ax"):
+        for ddef, dcall in (("parallelized", None), (None, "parallelized"), ("forbidden", "parallelized"), ("parallelized", "forbidden"), (None, None), ("allowed", None)):
+            add(sig=name, way="decorator-def", rule="fill", lazy=True, dask_def=ddef, dask_call=dcall)
     add(sig="2ax", way="apply", rule="fill", canary="width-off-by-one")
     add(sig="2in", way="apply", rule="extend", canary="wrong-input-order")
     return out
@@ -140,9 +151,16 @@ def scenario(s, w):
     args = []
     for i, ((names, poss), real) in enumerate(zip(ins, cfg["axis"])):
         core = [layout[rn][p] for rn, p in zip(real, poss)]
+        mp = s.get("mispos")
+        if mp and mp[0] == i:
+            # this input carries ONE of its signature axes on another position than the signature names
+            j = mp[1]
+            other = [q for q in LAY[real[j]] if q != poss[j]][mp[2] % (len(LAY[real[j]]) - 1)]
+            core[j] = layout[real[j]][other]
         # non-core dims: the extra dims first, and the other bound axes this input does not have stay absent
         adims = ex[:1] + core[::-1] + ex[1:]
-        args.append(w.array(f"D{i}", adims, ds, with_coords=True))
+        lazy = {d: (dims[d],) for d in adims} if s.get("lazy") else None
+        args.append(w.array(f"D{i}", adims, ds, with_coords=True, dask=lazy))
     out_core = [[layout[bind[dn]][p] for dn, p in zip(names, poss)] for names, poss in outs]
     bw = cfg["bw"]
     bw_real = {bind[k]: v for k, v in (bw or {}).items()}
@@ -195,7 +213,12 @@ def scenario(s, w):
         import types
         pass
     eff = dict(opts)
-    if way == "apply":
+    if s.get("lazy"):
+        # the dask option bound at definition time acts as if passed at call time; the call-time value overrides it
+        ddef, dcall = s.get("dask_def"), s.get("dask_call")
+        uf = GU.as_grid_ufunc(signature=cfg["sig"], boundary_width=bw, **opts, **({"dask": ddef} if ddef else {}))(f)
+        res = uf(g, *args, axis=axis, **({"dask": dcall} if dcall else {}))
+    elif way == "apply":
         res = GU.apply_as_grid_ufunc(f, *args, axis=axis, grid=g, signature=cfg["sig"], boundary_width=bw, **opts)
     elif way == "grid-method":
         res = g.apply_as_grid_ufunc(f, *args, axis=axis, signature=cfg["sig"], boundary_width=bw, **opts)
@@ -271,6 +294,28 @@ def run_structure(s):
 
     def body():
         w = SymWorld()
+        if s.get("lazy") and (s.get("dask_call") or s.get("dask_def") or "forbidden") == "forbidden":
+            try:
+                scenario(s, w)
+                raised = None
+            except (symx.EngineUnsupported, symx.InfeasiblePath, symx.PathAbort):
+                raise
+            except Exception as e:  # noqa
+                raised = e
+            covers["rejected"] = covers.get("rejected", 0) + (1 if raised is not None else 0)
+            oblige("lazy-input-refused-when-the-effective-dask-option-is-forbidden", raised is not None, detail="the call returned normally")
+            return "forbidden"
+        if s.get("mispos"):
+            try:
+                scenario(s, w)
+                raised = None
+            except (symx.EngineUnsupported, symx.InfeasiblePath, symx.PathAbort):
+                raise
+            except Exception as e:  # noqa
+                raised = e
+            covers["rejected"] = covers.get("rejected", 0) + (1 if raised is not None else 0)
+            oblige("input-not-on-the-signature's-position-is-rejected", raised is not None, detail="the call returned normally")
+            return "mispos"
         try:
             r = scenario(s, w)
         except (symx.EngineUnsupported, symx.InfeasiblePath, symx.PathAbort):
@@ -281,6 +326,9 @@ def run_structure(s):
             return "raise"
         oblige("returns-normally", True)
         covers["normal-return"] = covers.get("normal-return", 0) + 1
+        if s.get("lazy"):
+            oblige("lazy:result-stays-lazy", all(o.dask is not None for o in (r["res"] if isinstance(r["res"], (tuple, list)) else [r["res"]])))
+            oblige("lazy:no-eager-evaluation", not symx.ctx().ghost.get("eager"), detail=str(symx.ctx().ghost.get("eager")))
         f = r["f"]
         oblige("user-function-called-exactly-once", len(f.calls) == 1, detail=str(len(f.calls)))
         if len(f.calls) != 1:
@@ -390,6 +438,12 @@ def replay(ob):
             m[k] = 6
     nw = NativeWorld(m)
     text = [f"structure {s['sid']}"]
+    if s.get("mispos"):
+        try:
+            scenario(s, nw)
+        except Exception as e:  # noqa
+            return {"confirmed": False, "text": "\n".join(text + [f"rejected natively with {type(e).__name__}" + (" (raised by the harness!)" if _rih(e) else "")])}
+        return {"confirmed": True, "text": "\n".join(text + [f"native parameters {nw.consts}", "REAL CODE ACCEPTED an input that is not on the position the signature names"])}
     try:
         rn = scenario(s, nw)
     except Exception as e:  # noqa
